@@ -4,7 +4,7 @@ import itertools
 
 BEH9 = ["ok", "fail", "error", "skip", "xfail", "uxs", "multi", "kbd", "exit"]
 RAISE_KINDS = ["fail", "error", "skip", "xfail", "uxs", "kbd", "exit", "kbdsub", "exitsub", "basedirect",
-               "skipsub", "failsub", "mismatch"]
+               "skipsub", "failsub", "mismatch", "xfail_err", "skip_empty", "skip2"]
 
 
 class Tok:
@@ -122,6 +122,8 @@ def random_program(rng, *, max_cleanups=4, kinds=RAISE_KINDS, p_raise=0.35, feat
                              rng.choice(["skip", "failure", "error"]), 0])
         if rng.random() < p_raise:
             acts.append(random_raise(rng, tok, kinds, custom))
+        elif "truthy_return" in feats and name != "setUp" and rng.random() < 0.12:
+            acts.append(["return", rng.choice([1, "value", [0], True])])   # a stage that returns something
         return acts
 
     if rng.random() < 0.3:
